@@ -24,6 +24,7 @@ type SpecCtx struct {
 	depth   int
 	binders int
 	loopHead *ssa.BasicBlock
+	oldVars  map[string]Val // bindings that differ inside old(...) (mutable captured variables)
 }
 
 type specFail struct{ msg string }
@@ -142,6 +143,15 @@ func (c *SpecCtx) Eval(e SExpr) Val {
 		}
 		n := *c
 		n.st = c.old
+		if c.oldVars != nil {
+			n.vars = make(map[string]Val, len(c.vars)+len(c.oldVars))
+			for k, vv := range c.vars {
+				n.vars[k] = vv
+			}
+			for k, vv := range c.oldVars {
+				n.vars[k] = vv
+			}
+		}
 		if c.fr != nil {
 			// inside a loop invariant: old(...) sees parameters at their entry values
 			n.fr = nil
